@@ -91,6 +91,17 @@ CHECKS = {
         "one is recorded as a known finding (split units longer than their word).",
    technique="TLA+ spec DictBuild (outcome algebra) + TLC enumeration of the fault space (MC_DictBuild) replayed into the real compiler; I->S trace validation (Trace_DictBuild)",
    design="4 C06"),
+ "C20": dict(
+   category="fault_enumeration",
+   text="PluginLoad.tla: loading is a step with outcome {ok, err}; ok only if every provider id indexes the matrix (by use: rightId < first dimension, leftId < second), the cost fits i16 and the "
+        "POS exists or user POS are allowed; an inhibited pair edits exactly its own cell to the inhibited value; after ok, analyses succeed. TLC enumerates the boundary values "
+        "{-1,0,n-1,n,n+1,32767,32768,65535,65536} of every id for SimpleOov/RegexOov JSON settings, MeCab unk.def lines and inhibitPair, over matrices 1x1, 2x3, 3x2, 10x10, cost boundaries "
+        "and POS present/absent x userPOS allow/forbid/absent; every configuration is written to scratch files and loaded by the real from_cfg_storage under catch_unwind, every matrix cell is read "
+        "back, and probe texts exercising each provider are analysed with debug assertions; TLC validates the outcome trace.",
+   note="Trusted: TLC, JSON bridge, the scratch-file writer. Two genuine defects found here were repaired (dimension pairing for non-square matrices, unchecked inhibit pairs); the `>`/`>=` off-by-one "
+        "is a recorded known finding because its repair breaks three existing tests.",
+   technique="TLA+ spec PluginLoad + TLC boundary enumeration (MC_PluginLoad) replayed into the real loader; I->S trace validation (Trace_PluginLoad)",
+   design="4 C20"),
 }
 
 NOT_YET = "no check registered yet in this revision (work in progress; see DESIGN.md section 8 build order)"
